@@ -5,13 +5,18 @@
 (* generates nothing else): ASCII letters, '$', '_' start an identifier and *)
 (* continue it, digits and the joiners U+200C/U+200D continue only, the     *)
 (* sampled non-ASCII letters e-acute, U+3B8F and U+1D4B3 (astral) start and *)
-(* continue; blank characters separate words; everything else ends one.     *)
+(* continue, and so do one letter-number (U+2160, Nl) and the Other_ID_Start*)
+(* characters U+2118, U+212E, U+1885; combining marks (U+0301, U+0345,      *)
+(* U+093E), the Other_ID_Continue characters U+00B7 and U+0387 and the      *)
+(* connector U+203F continue only (ECMAScript: ID_Start / ID_Continue);     *)
+(* blank characters separate words; everything else (e.g. U+00B2) ends one. *)
 (***************************************************************************)
 EXTENDS MapModel
 
-Letters == (65..90) \cup (97..122) \cup {36, 95, 233, 15247, 119987}
+Letters == (65..90) \cup (97..122) \cup {36, 95, 233, 15247, 119987} \cup {8544, 8472, 8494, 6277}
+ContinueOnly == (48..57) \cup {8204, 8205} \cup {769, 837, 2366, 183, 903, 8255}
 IdStart(c) == c \in Letters
-IdContinue(c) == c \in Letters \/ c \in 48..57 \/ c \in {8204, 8205}
+IdContinue(c) == c \in Letters \/ c \in ContinueOnly
 Blank(c) == c \in {9, 10, 11, 12, 13, 32, 133, 160, 5760, 8232, 8233, 8239, 8287, 12288} \/ c \in 8192..8202   \* Unicode White_Space
 U16w(c) == IF c >= 65536 THEN 2 ELSE 1
 FUNCTION == <<102, 117, 110, 99, 116, 105, 111, 110>>
